@@ -9,7 +9,7 @@ from __future__ import annotations
 import ast
 from typing import Iterable
 
-from sa.loader import AnalysisError, norm_text
+from sa.loader import AnalysisError, dotted_name, norm_text
 from sa.report import where
 
 CONSTRUCTORS = {'tensor', 'as_tensor', 'linspace', 'logspace', 'FloatTensor'}
@@ -161,3 +161,86 @@ def self_check():
     want = {"torch.tensor(data['times'])": ['.to()'], "torch.tensor([0.0] + data['int": ['.cumsum()'], "torch.tensor(data['y'])": []}
     if res != want:
         raise AnalysisError(f"default-precision self-check failed: {res}")
+
+
+# ---------------------------------------------------------------------------
+# work buffers: a tensor allocated without a dtype and then written INTO takes torch's default precision, and every value stored into it is rounded to it
+# ---------------------------------------------------------------------------
+BUFFER_FACTORIES = {'torch.ones', 'torch.zeros', 'torch.full', 'torch.empty', 'torch.eye'}
+BUFFER_POSITIVE = '''
+def log_p(self, t):
+    B = torch.zeros_like(self.mu)
+    p = torch.ones(self.mu.shape[:-1] + (3,), device=self.mu.device)
+    q = torch.ones(self.mu.shape[:-1] + (3,), dtype=self.mu.dtype)
+    idx = torch.zeros(3, dtype=torch.long)
+    h = torch.empty(5)
+    for i in range(3):
+        p[..., i] *= torch.exp(self.mu[..., i] * t)
+        q[..., i] = self.mu[..., i]
+        h[i] = float(i)
+    return p, q, h
+'''
+
+
+def default_precision_buffers(fn: ast.FunctionDef):
+    """(allocation, store) pairs: a local allocated by torch.ones / zeros / full / empty / eye without dtype (and without **kwargs) that receives, through a subscript store or
+    an augmented subscript assignment, a value computed from the object's tensors or by torch (not plain Python numbers)"""
+    bufs = {}
+    for st in ast.walk(fn):
+        if isinstance(st, ast.Assign) and len(st.targets) == 1 and isinstance(st.targets[0], ast.Name) and isinstance(st.value, ast.Call) \
+                and (dotted_name(st.value.func) or '') in BUFFER_FACTORIES:
+            c = st.value
+            if not any(k.arg == 'dtype' or k.arg is None for k in c.keywords):
+                bufs[st.targets[0].id] = c
+    out = []
+    if not bufs:
+        return out
+    params = {a.arg for a in fn.args.args + fn.args.kwonlyargs} - {'self', 'cls'}
+    for st in ast.walk(fn):
+        tg = []
+        if isinstance(st, ast.Assign):
+            tg = [t for t in st.targets if isinstance(t, ast.Subscript)]
+        elif isinstance(st, ast.AugAssign) and isinstance(st.target, ast.Subscript):
+            tg = [st.target]
+        for t in tg:
+            b = t.value
+            while isinstance(b, ast.Subscript):
+                b = b.value
+            if not (isinstance(b, ast.Name) and b.id in bufs):
+                continue
+            from sa.util import backward_slice, local_assignments
+            defs = {k: v for k, v in local_assignments(fn).items() if k not in bufs}
+            tensorish = any((isinstance(x, ast.Attribute) and isinstance(x.value, ast.Name) and x.value.id == 'self')
+                            or (isinstance(x, ast.Call) and (dotted_name(x.func) or '').startswith('torch.') and (dotted_name(x.func) or '') not in ('torch.arange', 'torch.Size'))
+                            or (isinstance(x, ast.Attribute) and x.attr == 'tensor')
+                            for e in backward_slice(st.value, defs) for x in ast.walk(e))
+            if tensorish:
+                out.append((bufs[b.id], st))
+    return out
+
+
+def check_work_buffers(ctx, rep, rule: str, modules: Iterable[str]) -> int:
+    t = ast.parse(BUFFER_POSITIVE)
+    got = [ast.unparse(s.targets[0] if isinstance(s, ast.Assign) else s.target) for _, s in default_precision_buffers(t.body[0])]
+    if got != ['p[..., i]']:
+        raise AnalysisError(f"work-buffer self-check failed: {got}")
+    n = 0
+    for mname in modules:
+        m = ctx.prog.module(mname)
+        for fn in ast.walk(m.tree):
+            if not isinstance(fn, ast.FunctionDef):
+                continue
+            cl = getattr(fn, '_parent', None)
+            scope = f"{cl.name}.{fn.name}" if isinstance(cl, ast.ClassDef) else fn.name
+            allocs = [st.value for st in ast.walk(fn) if isinstance(st, ast.Assign) and isinstance(st.value, ast.Call) and (dotted_name(st.value.func) or '') in BUFFER_FACTORIES]
+            n += len(allocs)
+            hits = default_precision_buffers(fn)
+            for alloc, st in hits[:1]:
+                rep.bad(rule, f"{mname.replace('torchtree.', '')}::{scope}::buffer::{norm_text(alloc)[:50]}", where(m, alloc), {'stores': [norm_text(s)[:70] for _, s in hits]},
+                        f"{scope}: `{norm_text(alloc)[:60]}` allocates a work array at torch's default precision and `{norm_text(st)[:60]}` stores computed values into it: an "
+                        f"in-place store converts to the dtype of the array, so double-precision intermediate results are rounded to 24 bits and everything derived from them "
+                        f"(differences like 1 − p₀ most of all) loses the requested precision")
+            if allocs and not hits:
+                rep.ok(rule, f"{mname.replace('torchtree.', '')}::{scope}::buffers-carry-the-dtype-of-what-is-stored", where(m, fn), {'allocations': len(allocs)})
+    rep.analysed['work_buffer_allocations'] = n
+    return n
